@@ -1,6 +1,7 @@
 package drv
 
 import (
+	"fmt"
 	"strings"
 	"sync"
 	"sync/atomic"
@@ -22,6 +23,7 @@ type cwExp struct {
 	intr   []string // WG0 (UNSTABLE write g) | WG2 | COMMITG | CREATEK | WK0
 	after  []string // COMMITG | COMMITF | none
 	full   bool     // the disk is filled completely first: what the victim frees is all there is to allocate
+	many   bool     // 130 more files exist: the intruder can push every inode out of the inode cache (EVICT)
 }
 
 func commitWindowExps() []cwExp {
@@ -29,29 +31,38 @@ func commitWindowExps() []cwExp {
 	for _, v := range []string{"COMMITF", "WRITEF2", "WRITEF0", "CREATE", "SETATTRF", "REMOVEX"} {
 		for _, h := range []string{"precommit", "committed"} {
 			out = append(out,
-				cwExp{v, h, []string{"WG0"}, []string{"COMMITG"}, false},
-				cwExp{v, h, []string{"WG0"}, nil, false},
-				cwExp{v, h, []string{"WG0", "COMMITG"}, nil, false},
-				cwExp{v, h, []string{"WG2"}, nil, false},
-				cwExp{v, h, []string{"WG0", "WG0b"}, []string{"COMMITG"}, false},
-				cwExp{v, h, []string{"WG0"}, []string{"COMMITF"}, false},
+				cwExp{v, h, []string{"WG0"}, []string{"COMMITG"}, false, false},
+				cwExp{v, h, []string{"WG0"}, nil, false, false},
+				cwExp{v, h, []string{"WG0", "COMMITG"}, nil, false, false},
+				cwExp{v, h, []string{"WG2"}, nil, false, false},
+				cwExp{v, h, []string{"WG0", "WG0b"}, []string{"COMMITG"}, false, false},
+				cwExp{v, h, []string{"WG0"}, []string{"COMMITF"}, false, false},
 			)
 		}
 	}
 	// a request the journal refuses as too large, inside another request's commit (flush positions, shared commit state)
 	for _, v := range []string{"COMMITF", "WRITEF2", "CREATE", "SETATTRF", "REMOVEX"} {
 		for _, h := range []string{"precommit", "committed"} {
-			out = append(out, cwExp{v, h, []string{"BIGSYM"}, nil, false}, cwExp{v, h, []string{"WG0", "BIGSYM"}, []string{"COMMITG"}, false})
+			out = append(out, cwExp{v, h, []string{"BIGSYM"}, nil, false, false}, cwExp{v, h, []string{"WG0", "BIGSYM"}, []string{"COMMITG"}, false, false})
 		}
+	}
+	// the victim waits for its first inode lock ("want") while the intruder uses more inodes than the inode cache holds and
+	// changes the victim's file: whatever the victim looked up before it got the lock is stale by then
+	for _, v := range []string{"WRITEF2", "WRITEF0", "SETATTRF", "COMMITF"} {
+		out = append(out,
+			cwExp{v, "want", []string{"EVICT", "TRUNCF0"}, []string{"RF"}, false, true},
+			cwExp{v, "want", []string{"TRUNCF0", "EVICT"}, []string{"RF"}, false, true},
+			cwExp{v, "want", []string{"EVICT", "WF2b", "EVICT"}, []string{"RF"}, false, true},
+		)
 	}
 	// full disk: the victim frees blocks, the intruder needs blocks while the victim is inside its commit
 	for _, v := range []string{"REMOVEB", "TRUNCB", "RENOVB"} {
 		for _, h := range []string{"precommit", "committed"} {
 			out = append(out,
-				cwExp{v, h, []string{"WG2"}, []string{"RG"}, true},
-				cwExp{v, h, []string{"WG2", "RG"}, []string{"RG"}, true},
-				cwExp{v, h, []string{"WG0", "COMMITG"}, []string{"RG"}, true},
-				cwExp{v, h, []string{"CREATEK", "WG2"}, []string{"RG"}, true},
+				cwExp{v, h, []string{"WG2"}, []string{"RG"}, true, false},
+				cwExp{v, h, []string{"WG2", "RG"}, []string{"RG"}, true, false},
+				cwExp{v, h, []string{"WG0", "COMMITG"}, []string{"RG"}, true, false},
+				cwExp{v, h, []string{"CREATEK", "WG2"}, []string{"RG"}, true, false},
 			)
 		}
 	}
@@ -152,6 +163,12 @@ func runCommitWindow(k int, e cwExp, t *Trace, seg int) int {
 	mk(0, "CREATE", root, "x")
 	wr(0, fhF, 0, 3000, 40, 2)
 	wr(0, fhF, 3000, 3000, 41, 0) // an unstable write is outstanding when the victim starts
+	var manyFhs []string
+	if e.many {
+		for i := 0; i < 130; i++ {
+			manyFhs = append(manyFhs, mk(0, "CREATE", dd, fmt.Sprintf("m%d", i)).RFh)
+		}
+	}
 	if e.full {
 		fhB := mk(0, "CREATE", root, "b").RFh
 		wr(0, fhB, 0, 3*4096, 43, 2)
@@ -235,6 +252,22 @@ func runCommitWindow(k int, e cwExp, t *Trace, seg int) int {
 			commit(cl, fhF)
 		case "CREATEK":
 			mk(cl, "CREATE", dd, "k2")
+		case "EVICT":
+			for _, h := range manyFhs {
+				c := NewCall("GETATTR")
+				c.Fh = h
+				do(cl, c)
+			}
+		case "TRUNCF0":
+			c := NewCall("SETATTR")
+			c.Fh, c.SetSize, c.Size = fhF, true, 0
+			do(cl, c)
+		case "WF2b":
+			wr(cl, fhF, 8192, 4096, 54, 2)
+		case "RF":
+			c := NewCall("READ")
+			c.Fh, c.Off, c.Cnt = fhF, 0, 16384
+			do(cl, c)
 		case "RG":
 			c := NewCall("READ")
 			c.Fh, c.Off, c.Cnt = fhG, 0, 8192
